@@ -449,7 +449,14 @@ func (x *Exec) binop(fr *frame, st *State, t *ssa.BinOp) Value {
 		if t.Op == token.QUO || t.Op == token.REM {
 			x.safety(fr, st, "div", t.Pos(), not(eq(yv.Term(), c.Lit(big.NewInt(0), xt))))
 		}
-		return c.Scalar(t.Type(), c.Arith(t.Op, xv.Term(), yv.Term(), xt, t.Y.Type()))
+		r := c.Arith(t.Op, xv.Term(), yv.Term(), xt, t.Y.Type())
+		if ii, _ := intInfoOf(xt); c.NoWrapU64 && !c.BV && !ii.signed && ii.w == 64 {
+			switch t.Op {
+			case token.ADD, token.SUB, token.MUL, token.SHL:
+				x.safety(fr, st, "u64range", t.Pos(), c.RangeFact(r, xt))
+			}
+		}
+		return c.Scalar(t.Type(), r)
 	}
 	if isFloat(xt) {
 		f := c.Fun("f64."+opName(t.Op), []Sort{SF64, SF64}, SF64)
